@@ -71,22 +71,27 @@ W3C(a) == CASE a = "aes128-cbc"    -> [mode |-> "cbc", cipher |-> "aes",  key |-
 \* xmlenc/digest.go:33-48     SHA-256/512/RIPEMD-160 identified by non-W3C URIs (written and solely accepted)
 \* xmlenc/pubkey.go:139-145   rsa-oaep-mgf1p : MGF1 digest follows DigestMethod (W3C: always SHA-1)
 \* xmlenc/pubkey.go:155-184   xmlenc11 rsa-oaep : no xenc11:MGF element written / read (W3C default MGF1-SHA-1)
+\* xmlenc/decrypt.go:81-84    key.(*rsa.PrivateKey) succeeds for a nil pointer and for a value without modulus / private
+\*                            exponent; the key is dereferenced later (rsaKey.N.Cmp, crypto/rsa) without a check
 DevNone ==
   [StripOffByOne |-> FALSE, AcceptOversizePadding |-> FALSE, DesSingleKey |-> FALSE, DecIvFixed16 |-> FALSE,
    NoAlignCheck |-> FALSE, GcmPads |-> FALSE, GcmNonceShadowed |-> FALSE, GcmSealsZeros |-> FALSE,
    GcmNonceNotEmitted |-> FALSE, NoGcmLenCheck |-> FALSE, Oaep11Unregistered |-> FALSE,
-   DigestEmit |-> "w3c", DigestAccept |-> {"w3c"}, MgfFollowsDigest |-> FALSE, Oaep11NoMgf |-> FALSE]
+   DigestEmit |-> "w3c", DigestAccept |-> {"w3c"}, MgfFollowsDigest |-> FALSE, Oaep11NoMgf |-> FALSE,
+   NoKeyCompletenessCheck |-> FALSE]
 DevPinned ==
   [StripOffByOne |-> TRUE, AcceptOversizePadding |-> TRUE, DesSingleKey |-> TRUE, DecIvFixed16 |-> TRUE,
    NoAlignCheck |-> TRUE, GcmPads |-> TRUE, GcmNonceShadowed |-> TRUE, GcmSealsZeros |-> TRUE,
    GcmNonceNotEmitted |-> TRUE, NoGcmLenCheck |-> TRUE, Oaep11Unregistered |-> TRUE,
-   DigestEmit |-> "pkg", DigestAccept |-> {"pkg"}, MgfFollowsDigest |-> TRUE, Oaep11NoMgf |-> TRUE]
-\* the tree with the patches of /verif/fixes/C10-*.patch, C11-*.patch applied
+   DigestEmit |-> "pkg", DigestAccept |-> {"pkg"}, MgfFollowsDigest |-> TRUE, Oaep11NoMgf |-> TRUE,
+   NoKeyCompletenessCheck |-> TRUE]
+\* the tree with the patches of /verif/fixes/C10-*.patch, C11-*.patch, C11b-*.patch applied
 DevFixed ==
   [StripOffByOne |-> FALSE, AcceptOversizePadding |-> TRUE, DesSingleKey |-> FALSE, DecIvFixed16 |-> FALSE,
    NoAlignCheck |-> FALSE, GcmPads |-> TRUE, GcmNonceShadowed |-> TRUE, GcmSealsZeros |-> TRUE,
    GcmNonceNotEmitted |-> TRUE, NoGcmLenCheck |-> FALSE, Oaep11Unregistered |-> FALSE,
-   DigestEmit |-> "w3c", DigestAccept |-> {"w3c", "pkg"}, MgfFollowsDigest |-> TRUE, Oaep11NoMgf |-> FALSE]
+   DigestEmit |-> "w3c", DigestAccept |-> {"w3c", "pkg"}, MgfFollowsDigest |-> TRUE, Oaep11NoMgf |-> FALSE,
+   NoKeyCompletenessCheck |-> FALSE]
 
 (* implementation parameters under a deviation record d *)
 KeySize(d, a) == IF a = "tripledes-cbc" /\ d.DesSingleKey THEN 8 ELSE W3C(a).key
@@ -98,7 +103,24 @@ Registered(d, a) == a \in BCs \/ a \in {"rsa-oaep-mgf1p", "rsa-1_5"} \/ (a = "rs
 
 (***************************** symbolic values *****************************)
 Bytes(n, id) == [t |-> "bytes", len |-> n, id |-> id]
-KeyVal(t, n, id) == [t |-> t, len |-> n, id |-> id]       \* t: bytes | nil | rsa | ecdsa | string
+\* key value handed to Decrypt.  t is the Go type, shape what a value of that type holds:
+\*   t     : bytes ([]byte) | nil (untyped nil) | rsa (*rsa.PrivateKey) | rsaval (rsa.PrivateKey, not a pointer) |
+\*           rsapub (*rsa.PublicKey) | signer (a crypto.Signer / crypto.Decrypter wrapping the *rsa.PrivateKey, as a
+\*           key held in a token is presented) | ecdsa (*ecdsa.PrivateKey) | ed25519 (ed25519.PrivateKey) | string
+\*   shape : std | nilslice ([]byte(nil)) and, for t = rsa (id names the key pair, public exponent 65537):
+\*           std       N, E, D, Primes, Precomputed (what the x509 parsers and GenerateKey return)
+\*           noprecomp N, E, D, Primes            noprimes N, E, D only (a key imported by its private exponent)
+\*           wrongd    N, E and a D that is not the private exponent of (N, E)
+\*           nod       N, E only                   zero  &rsa.PrivateKey{}       typednil  (*rsa.PrivateKey)(nil)
+KeyShape(t, n, id, s) == [t |-> t, len |-> n, id |-> id, shape |-> s]
+KeyVal(t, n, id) == KeyShape(t, n, id, "std")
+RsaHolders == {"rsa", "rsaval", "signer"}                 \* Go types whose value holds an RSA private key
+Working    == {"std", "noprecomp", "noprimes"}            \* shapes with which crypto/rsa can decrypt for (N, E)
+Incomplete == {"nod", "zero", "typednil"}                 \* no private exponent / no modulus / no key at all
+RsaShapes  == Working \cup {"wrongd"} \cup Incomplete
+\* public half of a key value holding an RSA key: modulus identity and public exponent ("none": there is none)
+PubN(k) == IF k.t \in RsaHolders /\ k.shape \notin {"zero", "typednil"} THEN k.id ELSE "none"
+PubE(k) == IF k.t \in RsaHolders /\ k.shape \notin {"zero", "typednil"} THEN "F4" ELSE "none"
 NoCt == [k |-> "none"]
 \* block ciphertext.  made: cbc | gcm | junk
 Blk(made, cipher, kid, klen, iv, body, tag, pt, last, src, padded, mod) ==
@@ -115,11 +137,35 @@ Dm(name, uri) == [k |-> "known", name |-> name, uri |-> IF name = "sha1" THEN "b
 \*   em   : "absent" | "noattr" | "unknown" | algorithm name
 \*   cv   : "ok" | "nocd" | "nocv" | "badb64"        len : decoded CipherValue length
 \*   dm   : ds:DigestMethod     mgf : xenc11:MGF digest name or "absent"
-\*   cert : "absent" | key name of the embedded certificate | "garbage"
+\*   cert : class of ds:KeyInfo/ds:X509Data (table X509 below): "absent" | key name of the embedded certificate |
+\*          "garbage" | ...
 \*   eks  : EncryptedKey children of KeyInfo, in document order
 El(em, cv, len, ct, dm, mgf, cert, eks) ==
   [em |-> em, cv |-> cv, len |-> len, ct |-> ct, dm |-> dm, mgf |-> mgf, cert |-> cert, eks |-> eks]
 DataEl(em, cv, len, ct, eks) == El(em, cv, len, ct, NoDm, "absent", "absent", eks)
+
+\* X509Data classes.  A certificate is [kind, n, e]: kind rsa | ec | garbage (text that is not a certificate),
+\* n the identity of the modulus (name of the key pair), e the public exponent ("F4" = 65537 | "3").
+\* data: an X509Data element is present; certs: its X509Certificate children in document order; ws: the base64 text is
+\* line-wrapped and indented / surrounded by white space (allowed by xs:base64Binary).
+Crt(kind, n, e) == [kind |-> kind, n |-> n, e |-> e]
+XD(certs, ws) == [data |-> TRUE, certs |-> certs, ws |-> ws]
+X509(c) == CASE c = "absent"  -> [data |-> FALSE, certs |-> <<>>, ws |-> FALSE]
+             [] c = "nocert"  -> XD(<<>>, FALSE)                                   \* X509SubjectName / X509IssuerSerial only
+             [] c = "sp"      -> XD(<<Crt("rsa", "sp", "F4")>>, FALSE)
+             [] c = "sp2"     -> XD(<<Crt("rsa", "sp2", "F4")>>, FALSE)             \* other modulus, same exponent
+             [] c = "sp-e3"   -> XD(<<Crt("rsa", "sp", "3")>>, FALSE)               \* same modulus, other exponent
+             [] c = "sp2-e3"  -> XD(<<Crt("rsa", "sp2", "3")>>, FALSE)
+             [] c = "rsa1024" -> XD(<<Crt("rsa", "rsa1024", "F4")>>, FALSE)         \* RSA key of another size
+             [] c = "rsa3072" -> XD(<<Crt("rsa", "rsa3072", "F4")>>, FALSE)
+             [] c = "ec256"   -> XD(<<Crt("ec", "ec256", "none")>>, FALSE)
+             [] c = "garbage" -> XD(<<Crt("garbage", "none", "none")>>, FALSE)
+             [] c = "sp-ws"   -> XD(<<Crt("rsa", "sp", "F4")>>, TRUE)
+             [] c = "sp2-ws"  -> XD(<<Crt("rsa", "sp2", "F4")>>, TRUE)
+             [] c = "sp+sp2"  -> XD(<<Crt("rsa", "sp", "F4"), Crt("rsa", "sp2", "F4")>>, FALSE)   \* two certificates
+             [] c = "sp2+sp"  -> XD(<<Crt("rsa", "sp2", "F4"), Crt("rsa", "sp", "F4")>>, FALSE)
+CertNames == {"absent", "nocert", "sp", "sp2", "sp-e3", "sp2-e3", "rsa1024", "rsa3072", "ec256", "garbage",
+              "sp-ws", "sp2-ws", "sp+sp2", "sp2+sp"}
 
 PadLen(n, bs) == bs - (n % bs)
 
@@ -191,16 +237,32 @@ F2 == UNION { { [fam |-> "struct", via |-> "direct", el |-> [GoodData(a, <<>>) E
             : a \in {"aes128-cbc", "tripledes-cbc", "aes128-gcm"} }
 
 \* F3: key values of every Go type the API admits
+\* values that are, hold or resemble the recipient's RSA key (sp), besides the standard *rsa.PrivateKey
+ShapedKeys == { KeyShape("rsa", 256, "sp", s) : s \in RsaShapes \ {"std"} }
+              \cup { KeyVal("rsaval", 256, "sp"), KeyVal("rsapub", 256, "sp"), KeyVal("signer", 256, "sp"),
+                     KeyVal("ed25519", 64, "ed") }
 KeyVals(a) == { KeyVal("bytes", n, "K") : n \in {0, W3C(a).key - 1, W3C(a).key, W3C(a).key + 1, 8, 16, 24, 32} }
               \cup { KeyVal("nil", 0, "none"), KeyVal("rsa", 256, "sp"), KeyVal("rsa", 256, "sp2"),
                      KeyVal("ecdsa", 32, "ec256"), KeyVal("string", 16, "K") }
+              \cup { KeyShape("bytes", 0, "K", "nilslice") } \cup ShapedKeys
 F3 == UNION { { [fam |-> "key", via |-> "direct", el |-> GoodData(a, <<>>), key |-> k] : k \in KeyVals(a) }
               \cup { [fam |-> "key", via |-> "rsa", el |-> GoodData(a, <<StdEK(W3C(a).key)>>), key |-> k] : k \in KeyVals(a) }
             : a \in BCs }
+\* F3k: the shaped keys (and the standard one, the ECDSA one as controls) x every RSA key transport x EncryptedKey
+\* on its own / nested in EncryptedData x valid and malformed cipher value x embedded certificate
+KtEK(kt, cert) == RefEK(kt, IF kt = "rsa-1_5" THEN NoDm ELSE Dm("sha1", "w3c"), "absent", cert, "sp", Bytes(16, "K"))
+JunkWrap == Wrap("junk", "none", "none", "none", Bytes(0, "X"))
+EkCvVariants(ek) == { ek, [ek EXCEPT !.cv = "badb64"], [ek EXCEPT !.cv = "nocv"] }
+                    \cup { [ek EXCEPT !.len = n, !.ct = JunkWrap] : n \in {0, 255, 256} }
+F3k == UNION { UNION { { [fam |-> "kshape", via |-> "rsa", el |-> GoodData("aes128-cbc", <<ek>>), key |-> k],
+                         [fam |-> "kshape", via |-> "ek", el |-> ek, key |-> k] }
+                       : ek \in EkCvVariants(KtEK(kt, cert)) }
+               : kt \in KTs, cert \in {"absent", "sp", "sp-e3"},
+                 k \in ShapedKeys \cup {SpKey, KeyVal("ecdsa", 32, "ec256")} }
 
 \* F4: EncryptedKey variants
 DmVariants == { NoDm, UnknownDm, Dm("sha1", "w3c"), Dm("sha256", "w3c"), Dm("sha256", "pkg"), Dm("sha512", "w3c"), Dm("ripemd160", "pkg") }
-Certs == {"absent", "sp", "sp2", "ec256", "garbage"}
+Certs == CertNames
 F4a == { [fam |-> "ek", via |-> "rsa",
           el |-> GoodData("aes128-cbc", << RefEK(kt, dm, mgf, cert, to, Bytes(16, "K")) >>),
           key |-> KeyVal("rsa", 256, kn)] :
@@ -229,7 +291,7 @@ F5 == UNION { { [fam |-> "nest", via |-> "rsa", el |-> Depth2(a, RefEK("rsa-oaep
                 [fam |-> "nest", via |-> "rsa", el |-> GoodData(a, << StdEK(W3C(a).key), StdEK(W3C(a).key) >>), key |-> SpKey] }
             : a \in {"aes128-cbc", "aes256-cbc", "tripledes-cbc", "aes128-gcm"} }
 
-C11Set == F1 \cup F2 \cup F3 \cup F4 \cup F4b \cup F5
+C11Set == F1 \cup F2 \cup F3 \cup F3k \cup F4 \cup F4b \cup F5
 
 IsC10 == Family \in {"C10q", "C10t"}
 
@@ -372,13 +434,26 @@ Return ==
   /\ UNCHANGED <<impl, c>>
 
 \* ---- RSA key transport (pubkey.go:101-129, decrypt.go:80-113)
+\* decrypt.go:81-84  key.(*rsa.PrivateKey): only that Go type; (required: and a key that has a modulus and an exponent)
 RsaKeyType == /\ pc = "RsaKeyType"
-              /\ IF kv.t # "rsa" THEN Fail("error", "KeyType") ELSE Goto("RsaCert")
+              /\ IF kv.t # "rsa" THEN Fail("error", "KeyType")
+                 ELSE IF ~DD.NoKeyCompletenessCheck /\ kv.shape \in Incomplete THEN Fail("error", "IncompleteKey")
+                 ELSE Goto("RsaCert")
+\* decrypt.go:92-111  the FIRST ./KeyInfo/X509Data/X509Certificate in document order: PEM-decode (white space is
+\* skipped), parse, must be RSA, modulus and exponent equal to the key's.  Without one (no X509Data, or an X509Data
+\* with other children: the X509IssuerSerial branch is empty) nothing is compared.
 RsaCert == /\ pc = "RsaCert"
-           /\ CASE Top.cert = "absent"  -> Goto("RsaCipherText")
-                [] Top.cert = "garbage" -> Fail("error", "InvalidCertificate")
-                [] Top.cert = "ec256"   -> Fail("error", "CertificateNotRSA")
-                [] OTHER -> IF Top.cert # kv.id THEN Fail("error", "CertificateMismatch") ELSE Goto("RsaCipherText")
+           /\ LET x == X509(Top.cert).certs IN
+              IF x = <<>> THEN Goto("RsaCipherText")
+              ELSE LET crt == x[1] IN
+                   CASE crt.kind = "garbage" -> Fail("error", "InvalidCertificate")
+                     [] crt.kind = "ec"      -> Fail("error", "CertificateNotRSA")
+                     [] OTHER ->
+                        \* rsaKey.N.Cmp(pubKey.N) on a nil key / nil modulus (reachable only with NoKeyCompletenessCheck)
+                        IF kv.shape \in {"typednil", "zero"} THEN Fail("panic", "NilKeyDereference")
+                        ELSE IF crt.n # PubN(kv) THEN Fail("error", "CertificateMismatch")      \* modulus clause
+                        ELSE IF crt.e # PubE(kv) THEN Fail("error", "CertificateMismatch")      \* exponent clause
+                        ELSE Goto("RsaCipherText")
 RsaCipherText == /\ pc = "RsaCipherText"
                  /\ IF Top.cv # "ok" THEN Fail("error", "CipherValue") ELSE Goto("RsaDigest")
 DigestKnown(d, dm) == dm.k = "known" /\ (dm.uri = "both" \/ dm.uri \in d.DigestAccept)
@@ -390,13 +465,22 @@ DecHash(e) == IF e.dm.k = "absent" THEN "sha1" ELSE e.dm.name
 DecMgf(d, e) == IF e.em = "rsa-oaep-mgf1p"
                   THEN (IF d.MgfFollowsDigest THEN DecHash(e) ELSE "sha1")
                   ELSE (IF d.Oaep11NoMgf THEN DecHash(e) ELSE IF e.mgf = "absent" THEN "sha1" ELSE e.mgf)
+\* pubkey.go:146 / :176 / :191  rsa.DecryptOAEP / DecryptPKCS1v15 with the caller's key value: crypto/rsa decrypts with
+\* D (and the CRT values when present) and verifies the result against E, so every Working shape unwraps and a wrong
+\* D fails; it dereferences the key (nil key: panic), checks the modulus (none: error) and the size of the cipher
+\* value before it uses D (no D: panic, unless the cipher value was refused first).
 RsaUnwrap ==
   /\ pc = "RsaUnwrap"
   /\ LET e == Top w == e.ct
-         ok == /\ w.k = "wrap" /\ w.to = kv.id
+         ok == /\ w.k = "wrap" /\ w.to = kv.id /\ kv.shape \in Working
                /\ IF e.em = "rsa-1_5" THEN w.scheme = "pkcs1"
                   ELSE w.scheme = "oaep" /\ w.hash = DecHash(e) /\ w.mgf = DecMgf(DD, e) IN
-     IF ok THEN Yield(w.payload, FALSE) ELSE Fail("error", "RsaDecryption")
+     CASE kv.shape = "typednil" -> Fail("panic", "NilKeyDereference")
+       [] kv.shape = "zero"     -> Fail("error", "RsaDecryption")
+       [] kv.shape = "nod"      -> IF w.k = "wrap" /\ w.scheme # "junk" THEN Fail("panic", "NilExponentDereference")
+                                   ELSE /\ ret' = [k |-> "error", why |-> "RsaDecryption", val |-> Bytes(0, "X"), nondet |-> TRUE]
+                                        /\ pc' = "Return" /\ UNCHANGED <<frames, kv, buf>> /\ Same
+       [] OTHER -> IF ok THEN Yield(w.payload, FALSE) ELSE Fail("error", "RsaDecryption")
 
 \* ---- block ciphers (cbc.go:100-130, gcm.go:102-130)
 KeyType == /\ pc = "KeyType"
@@ -497,9 +581,22 @@ LevelKey(i) == IF i = Len(CPath) THEN c.key
                     ELSE IF below.k = "blk" THEN KeyVal("bytes", below.pt.len, below.pt.id) ELSE KeyVal("nil", 0, "none")
 BadAlgorithm(e) == e.em \in {"absent", "noattr", "unknown"}
 BadDigest(e) == e.em \in {"rsa-oaep-mgf1p", "rsa-oaep11"} /\ e.dm.k = "unknown"
+\* "keys of the wrong type or size": a block cipher needs a byte string of the algorithm's key size, a key transport a
+\* value holding an RSA private key.  Such a key in another Go representation than *rsa.PrivateKey (a value, a
+\* crypto.Decrypter around it) is a correct key of the recipient: no clause demands it be accepted or refused.  A
+\* *rsa.PrivateKey that is nil, empty or lacks / has a wrong private exponent is of the right type: only totality
+\* applies (and there is nothing it could decrypt).
 BadKey(e, k) == IF e.em \in BCs THEN k.t # "bytes" \/ k.len # W3C(e.em).key
-                ELSE IF e.em \in KTs THEN k.t # "rsa" ELSE FALSE
-CertMismatch(e, k) == e.em \in KTs /\ k.t = "rsa" /\ e.cert \notin {"absent", "garbage"} /\ e.cert # k.id
+                ELSE IF e.em \in KTs THEN k.t \notin RsaHolders ELSE FALSE
+\* "an RSA-wrapped key whose embedded certificate does not match the supplied private key is rejected": the
+\* certificate's public key is the key's public key - same algorithm, same modulus AND same exponent.  With several
+\* certificates the statement does not say which one counts: required only when none of them matches.  Text that is
+\* not a certificate is not "a certificate that does not match".
+Matches(crt, k) == crt.kind = "rsa" /\ crt.n = PubN(k) /\ crt.e = PubE(k)
+CertMismatch(e, k) == /\ e.em \in KTs /\ k.t \in RsaHolders
+                      /\ LET x == X509(e.cert).certs IN
+                         /\ \E i \in 1..Len(x) : x[i].kind # "garbage"
+                         /\ \A i \in 1..Len(x) : ~Matches(x[i], k)
 BadLength(e) == e.em \in BCs /\ e.cv = "ok" /\
                 LET w == W3C(e.em) IN
                 IF w.mode = "cbc" THEN e.len < w.iv + w.block \/ (e.len - w.iv) % w.block # 0
@@ -513,7 +610,8 @@ C11MustReject == \E i \in 1..Len(CPath) : MustRejectLevel(i)
 \* a well-formed ciphertext with the right key (C10's business; here the control that mutations start from working inputs)
 Baseline == /\ ~C11MustReject
             /\ \A i \in 1..Len(CPath) : LET e == CPath[i] IN
-                 /\ e.cv = "ok" /\ e.cert \in {"absent", c.key.id}
+                 /\ e.cv = "ok" /\ (\A j \in 1..Len(X509(e.cert).certs) : Matches(X509(e.cert).certs[j], c.key))
+                 /\ (e.em \in KTs => (c.key.t = "rsa" /\ c.key.shape \in Working))
                  /\ (e.em \in CBCs => (e.ct.made = "cbc" /\ e.ct.last >= 1 /\ e.ct.last <= W3C(e.em).block))
                  /\ (e.em = "aes128-gcm" => e.ct.made = "gcm")
                  /\ (e.em \in KTs => (e.ct.scheme # "junk" /\ e.ct.to = c.key.id /\ e.dm.k # "unknown"
@@ -542,6 +640,7 @@ EmitC10 == PrintT(<<"VEC", ToJson([prop |-> "C10", model |-> impl, case |-> c, c
                                    pred |-> [self |-> out.self, pkg2ref |-> out.pkg2ref, ref2pkg |-> out.ref2pkg]])>>)
 EmitC11 == PrintT(<<"VEC", ToJson([prop |-> "C11", model |-> impl, fam |-> c.fam, via |-> c.via, el |-> c.el, key |-> c.key,
                                    class |-> C11Class, baseline |-> Baseline,
+                                   x509 |-> [i \in 1..Len(CPath) |-> X509(CPath[i].cert)],
                                    why |-> [i \in 1..Len(CPath) |->
                                               LET e == CPath[i] k == LevelKey(i) IN
                                               [alg |-> BadAlgorithm(e), digest |-> BadDigest(e), key |-> BadKey(e, k),
